@@ -755,6 +755,40 @@ func init() {
 		}
 		return out
 	})
+	// strings.ToLower / ToUpper: computed on literals; identity on atoms whose alphabet has no letter of
+	// the other case (decimal numbers; addresses and prefixes print lower-case hex); distributes over
+	// concatenation and ite. Anything else is outside the string theory.
+	caseMap := func(name string, f func(string) string, lower bool) {
+		var mapTerm func(in *Interp, t *Term) *Term
+		mapTerm = func(in *Interp, t *Term) *Term {
+			if l, ok := litOf(t); ok {
+				return litTerm(f(l))
+			}
+			if t.op == OIte {
+				return Ite(t.args[0], mapTerm(in, t.args[1]), mapTerm(in, t.args[2]))
+			}
+			if t.op == OApp && t.name == "cat" {
+				return App("cat", t.sort, mapTerm(in, t.args[0]), mapTerm(in, t.args[1]))
+			}
+			al := atomAlphabet(t)
+			if al == "" || f(al) != al {
+				in.abort("unsupported: " + name + " of a symbolic string outside the modelled alphabets")
+			}
+			return t
+		}
+		reg(name, func(in *Interp, fr *frame, a []Value) Value {
+			if ss, ok := a[0].(*SymStr); ok {
+				r := mapTerm(in, ss.t)
+				if l, ok := litOf(r); ok {
+					return l
+				}
+				return &SymStr{t: r}
+			}
+			return f(a[0].(string))
+		})
+	}
+	caseMap("strings.ToLower", strings.ToLower, true)
+	caseMap("strings.ToUpper", strings.ToUpper, false)
 	reg("strings.TrimSpace", func(in *Interp, fr *frame, a []Value) Value {
 		if ss, ok := a[0].(*SymStr); ok {
 			return in.symTrimSpace(ss)
